@@ -193,7 +193,7 @@ def _name_alias_offenders(fd):
     return out
 
 
-def _only_fresh_actuals(mod, funcs, helper, pname, depth=0):
+def _only_fresh_actuals(mod, funcs, helper, pname, depth=0, escaping_ok=True):
     """True iff `helper` is private to its module (leading underscore, not exported), is called somewhere in it, and at every call site the argument bound to `pname` is a name
     the caller bound to a fresh object (a literal, a constructor / numpy creation call), not one of the caller's own parameters or an alias of one (checked transitively)."""
     if not helper.name.startswith('_') or depth > 3:
@@ -218,10 +218,10 @@ def _only_fresh_actuals(mod, funcs, helper, pname, depth=0):
         if actual.id in getattr(caller, '_vs_alias', set()):
             # the caller hands on (an alias of) one of its own parameters: fine only if the caller is itself such a private helper
             cparams = [a.arg for a in caller.args.args]
-            if actual.id in cparams and _only_fresh_actuals(mod, funcs, caller, actual.id, depth + 1):
+            if actual.id in cparams and _only_fresh_actuals(mod, funcs, caller, actual.id, depth + 1, escaping_ok):
                 continue
             return False
-        if actual.id in (_escaping_names(caller) - {a.arg for a in caller.args.args}) :
+        if not escaping_ok and actual.id in (_escaping_names(caller) - {a.arg for a in caller.args.args}):
             return False          # the caller hands the container on (returns it, stores it in its result)
         defs = [a for a in ast.walk(caller) if isinstance(a, ast.Assign) and any(isinstance(t, ast.Name) and t.id == actual.id for t in a.targets)]
         fresh = lambda v: isinstance(v, (ast.Dict, ast.List, ast.Set, ast.Constant, ast.BinOp, ast.ListComp, ast.DictComp)) or \
@@ -248,7 +248,7 @@ def inplace_lint(chk, repo, rule, paths, floor_funcs=1):
                 for ln, txt, src_ in _name_alias_offenders(fd):
                     offenders.append(f'{fd.name} line {ln}: `{txt}: with array values the two names are one object and the update changes both')
                 for ln, txt, cont in _stored_alias_offenders(fd):
-                    if _only_fresh_actuals(mod, funcs, fd, cont):
+                    if _only_fresh_actuals(mod, funcs, fd, cont, escaping_ok=False):
                         continue      # a private helper working on a container every caller builds itself and keeps to itself
                     offenders.append(f'{fd.name} line {ln}: `{txt}` updates in place an object that is still stored in `{cont}`, which outlives the function: with array values the stored entry changes too')
                 for ln, txt, name in _inplace_offenders(fd):
